@@ -56,6 +56,9 @@ pub enum Prim {
     At(Vec<Tag>),
     /// OB / UN
     Bytes(Vec<u8>),
+    /// exact value bytes, declared as they are (no padding): used to build
+    /// streams with odd declared lengths for any VR
+    Raw(Vec<u8>),
 }
 
 #[derive(Clone, Debug, PartialEq)]
@@ -152,6 +155,9 @@ struct Enc {
     /// override: force every sequence / item to undefined (Some(true)),
     /// defined (Some(false)) or as the model says (None)
     force_undef: Option<bool>,
+    /// follow every odd `Raw` value by one pad byte that its declared length
+    /// does not count ("odd length field, padded value" streams)
+    hidden_pad: bool,
 }
 
 impl Enc {
@@ -224,9 +230,11 @@ impl Enc {
             layout: Layout::default(),
             depth: 0,
             force_undef: None,
+            hidden_pad: false,
         };
         match p {
             Prim::Text(b) | Prim::Bytes(b) => e.out.extend_from_slice(b),
+            Prim::Raw(b) => return b.clone(),
             Prim::U16(v) => v.iter().for_each(|x| e.p16(*x)),
             Prim::I16(v) => v.iter().for_each(|x| e.p16(*x as u16)),
             Prim::U32(v) => v.iter().for_each(|x| e.p32(*x)),
@@ -256,6 +264,9 @@ impl Enc {
                 let o = self.out.len();
                 self.out.extend_from_slice(&b);
                 self.f(FieldKind::Value, o, b.len());
+                if self.hidden_pad && b.len() % 2 == 1 {
+                    self.out.push(pad_byte(&el.vr));
+                }
             }
             Val::Seq { items, undef } => {
                 let undef = self.force_undef.unwrap_or(*undef);
@@ -268,6 +279,7 @@ impl Enc {
                     layout: Layout::default(),
                     depth: self.depth + 1,
                     force_undef: self.force_undef,
+                    hidden_pad: self.hidden_pad,
                 };
                 for it in items {
                     inner.item(it)?;
@@ -331,6 +343,7 @@ impl Enc {
             layout: Layout::default(),
             depth: self.depth,
             force_undef: self.force_undef,
+            hidden_pad: self.hidden_pad,
         };
         inner.elems(&it.elems)?;
         let o = self.out.len();
@@ -358,6 +371,12 @@ impl Enc {
 /// Canonical encoding of a data set. `force_undef`: None = container length
 /// forms as recorded in the model.
 pub fn encode(elems: &[Elem], syn: Syntax, force_undef: Option<bool>) -> Result<(Vec<u8>, Layout), String> {
+    encode_opts(elems, syn, force_undef, false)
+}
+
+/// `hidden_pad`: every odd `Raw` value is followed by a pad byte that its
+/// declared length does not count.
+pub fn encode_opts(elems: &[Elem], syn: Syntax, force_undef: Option<bool>, hidden_pad: bool) -> Result<(Vec<u8>, Layout), String> {
     let mut e = Enc {
         out: Vec::new(),
         be: syn.be(),
@@ -365,9 +384,29 @@ pub fn encode(elems: &[Elem], syn: Syntax, force_undef: Option<bool>) -> Result<
         layout: Layout::default(),
         depth: 0,
         force_undef,
+        hidden_pad,
     };
     e.elems(elems)?;
     Ok((e.out, e.layout))
+}
+
+/// Declared value length of a primitive element in `syn`.
+pub fn declared_len(el: &Elem, syn: Syntax) -> Option<u32> {
+    match &el.val {
+        Val::Prim(p) => {
+            let e = Enc {
+                out: Vec::new(),
+                be: syn.be(),
+                explicit: syn.explicit(),
+                layout: Layout::default(),
+                depth: 0,
+                force_undef: None,
+                hidden_pad: false,
+            };
+            Some(e.prim_bytes(&el.vr, p).len() as u32)
+        }
+        _ => None,
+    }
 }
 
 // ------------------------------------------------------------------ parse
